@@ -328,7 +328,7 @@ func monC18(c *child.Ctx, replay json.RawMessage) {
 		c.Eval(ref.Hash64(cj), true)
 	}
 	// (3) concurrent histories
-	n := c.Share(c.Pick(2000, 100000))
+	n := c.Share(c.Pick(6000, 200000))
 	for i := 0; i < n; i++ {
 		k := queueCase{Kind: "conc", Cap: []int{1, 2, 3, 8}[r.Intn(4)], Adders: r.Range(1, 3), Readers: r.Range(1, 3), OpsEach: r.Range(10, 30),
 			Procs: []int{2, 16, 4}[r.Intn(3)], Seed: r.Uint64() >> 1}
